@@ -125,6 +125,17 @@ def handle (op : String) (args : List String) : Option String :=
         let r := Accel.collectAncestors parents common fuel heads []
         showCsvNat (r.toArray.qsort (· < ·)).toList
       | _, _, _ => "bad-arg"
+  | "c14.reach.collectsh", [g, common, shallow, heads] => some <|
+      match parseMap g, csvNat? common, csvNat? shallow, csvNat? heads with
+      | some g, some common, some shallow, some heads =>
+        let tbl := g.filterMap (fun (k, v) => match nat? k, csvNat? v with
+          | some k, some v => some (k, v) | _, _ => none)
+        if tbl.length ≠ g.length then "bad-arg" else
+        let parents := fun c => ((tbl.find? (·.1 = c)).map (·.2)).getD []
+        let fuel := 4 * (tbl.length + heads.length + 4) * (tbl.length + heads.length + 4)
+        let r := Accel.collectAncestorsSh parents common shallow fuel heads []
+        showCsvNat (r.toArray.qsort (· < ·)).toList
+      | _, _, _, _ => "bad-arg"
   | "c14.gate", [a, b] => some <| match bytes? a, bytes? b with
       | some a, some b => showBool (Accel.bitmapGate a b) | _, _ => "bad-arg"
   | _, _ => none
